@@ -25,5 +25,55 @@ def pred(v, code, m):
     return preds.c05_conforms(v, m)
 
 
+VERSION_SENSITIVE = ['a[i := 0]\n', 'print(x := 1)\n', 'def f(a, /, b): pass\n', 'match x:\n    case 1:\n        pass\n', 'async = 1\nawait = 2\n', 'with (a as b, c as d): pass\n',
+                     'f(**k, *a)\n', 'x = [*a, *b]\nprint(*a, *b)\n', 'lambda: (yield)\n', 'try:\n    pass\nexcept* E:\n    pass\n', 'type X = int\n', 'def g[T](a: T): pass\n',
+                     '@a.b[c]\ndef h(): pass\n', 'for x in *a, *b: pass\n', 'f"{x!r:>{w}}"\n', 'return\n', 'x: int = 1\n', 'a = b if c else d\n']
+
+
+def cross_version_cache(ctx):
+    """the same file parsed by path with the cache switched on, by one grammar version after the other (memory entries and pickles): every tree
+    must be a tree of the grammar that was asked - conforming, and equal to what that grammar parses without a cache"""
+    import os, shutil, random, warnings, parso
+    from pathlib import Path
+    from parso import cache as pcache
+    root = '/verif/.work/c05-cache-%d' % os.getpid()
+    vs = streams.versions()
+    r = random.Random('c05-cache:%s' % ctx.seed)
+    try:
+        for i, code in enumerate(VERSION_SENSITIVE):
+            shutil.rmtree(root, ignore_errors=True)
+            os.makedirs(root)
+            path = os.path.join(root, 'm%d.py' % i)
+            with open(path, 'w') as f:
+                f.write(code)
+            old = __import__('time').time() - 1000
+            os.utime(path, (old, old))
+            order = list(vs)
+            r.shuffle(order)
+            for drop_memory in (False, True):
+                for v in order + order[:3]:
+                    g = parso.load_grammar(version=v)
+                    if drop_memory:
+                        pcache.parser_cache.clear()
+                    ctx.count('c05-cross-version-cache')
+                    try:
+                        with warnings.catch_warnings():
+                            warnings.simplefilter('ignore')
+                            m = g.parse(path=path, cache=True, cache_path=Path(root) / 'cache')
+                    except Exception as e:
+                        ctx.violation('C05:cached-parse-raises:' + preds.crash_sig(e), dict(kind='input', version=v, input_text=code, order=order))
+                        break
+                    sig = pred(v, code, m)
+                    if not sig and preds.sig_tree(m) != preds.sig_tree(g.parse(code)):
+                        sig = 'C05:cached-tree-is-not-the-tree-of-the-grammar-asked'
+                    if sig:
+                        ctx.violation(sig, dict(kind='input', version=v, input_text=code, order=order, through='memory cache' if not drop_memory else 'pickle', observed=sig))
+                        break
+    finally:
+        pcache.parser_cache.clear()
+        shutil.rmtree(root, ignore_errors=True)
+
+
 def run(ctx, b, drv):
+    cross_version_cache(ctx)
     base.std_text_check(ctx, b, drv, VFILES + base.rules_files() + ll1_files(), ['parse', 'plans'], pred, 2000, 1500, 'c05')
